@@ -75,6 +75,7 @@ class RuleOk:
 HUGE_BYTES = 1000
 HUGE_STEP_CAP = 500000
 HUGE_DEPTH = 200
+MAX_DEPTH = 250
 
 
 class Model:
@@ -184,8 +185,8 @@ class Model:
             return self.call_extern(r, q)
         self.ev.append(("S", name, q))
         self.depth += 1
-        if self.depth > HUGE_DEPTH and self.n > HUGE_BYTES:
-            raise Drop("nesting too deep for a very long input")
+        if self.depth > MAX_DEPTH or (self.depth > HUGE_DEPTH and self.n > HUGE_BYTES):
+            raise Drop("nesting too deep (the native stack of the harness is not what is being tested)")
         try:
             if r.has("leftrec"):
                 res = self.call_leftrec(r, q)
